@@ -52,7 +52,7 @@ PLANNED_TAGS = ['mode:FreeTrans', 'mode:HarmonicVib', 'mode:QRRHOVib', 'mode:Ein
                 'vib:imaginary-dropped', 'vib:imaginary-substituted', 'rot:monatomic', 'rot:linear',
                 'rot:nonlinear', 'species:refs', 'species:misc', 'species:no-trans', 'setter:history',
                 'geom:monatomic', 'geom:linear', 'geom:nonlinear', 'geom:perm-all', 'geom:perm-generators',
-                'label:point-group', 'option:missing-getter']
+                'label:point-group', 'option:missing-getter', 'alias:shared-input']
 
 
 # ------------------------------------------------------------------ alphabets
@@ -537,6 +537,53 @@ def _setter_cases():
             yield dict(kind='setter', cls='GroundStateElec', hist=list(hist))
 
 
+# ------------------------------------------- shared caller input (construction histories)
+SUB_MENU = [None, 50., 75.]
+
+
+def check_alias(case, ctx):
+    """Several models are built, one after the other, from the SAME caller-owned wavenumber container
+    (list / tuple / float ndarray) with different imaginary_substitute settings.  Every model must report
+    the textbook values for (the caller's wavenumbers, its own substitute) and the caller's container
+    must stay as it was."""
+    ctx.tag('alias:shared-input')
+    cls, subs, cont, route = case['cls'], case['subs'], case['container'], case['route']
+    w0 = list(W_IMAG)
+    data = {'list': list(w0), 'tuple': tuple(w0), 'ndarray': np.array(w0, dtype=float)}[cont]
+    sig = {'cls': cls, 'clause_kind': 'shared input', 'container': cont}
+    extra = dict(Bav=1e-44, v0=100., alpha=4) if cls == 'QRRHOVib' else {}
+    from pmutt.statmech.vib import HarmonicVib, QRRHOVib
+    K = HarmonicVib if cls == 'HarmonicVib' else QRRHOVib
+    ctx.state(('alias', cls, subs, cont, route))
+    for n, sub in enumerate(subs):
+        if route == 'constructor' or n == 0:
+            obj = K(vib_wavenumbers=data, imaginary_substitute=sub, **extra)
+        else:
+            obj.imaginary_substitute = sub
+            obj.vib_wavenumbers = data
+        ctx.trans()
+        for T in (110., 900.):
+            r = ref.harmonic(w0, T, sub) if cls == 'HarmonicVib' else ref.qrrho(w0, T, 1e-44, 100., 4, sub)
+            obs = [_f(call(obj, 'get_' + g, T=T)) for g in ('CvoR', 'UoRT', 'SoR')]
+            ctx.evals(3)
+            ctx.close('model built from a shared wavenumber container reports the textbook values', obs,
+                      [r['Cv'], r['U'], r['S']], dict(sig, step=min(n, 1)), case, rtol=1e-9)
+        ctx.true('caller-supplied wavenumber container is left unmodified', [float(v) for v in data] == w0,
+                 dict(sig, step=min(n, 1)), case, [float(v) for v in data], w0)
+    ctx.trace()
+    if len(subs) > 1:
+        ctx.nontrivial(('alias', cls, subs, cont, route))
+
+
+def _alias_cases():
+    for cls in ('HarmonicVib', 'QRRHOVib'):
+        for cont in ('list', 'tuple', 'ndarray'):
+            for route in ('constructor', 'setter'):
+                for n in (1, 2, 3):
+                    for subs in itertools.product(SUB_MENU, repeat=n):
+                        yield dict(kind='alias', cls=cls, container=cont, route=route, subs=list(subs))
+
+
 # ------------------------------------------------------------ labels & options
 def check_label(case, ctx):
     from pmutt.statmech.rot import RigidRotor
@@ -771,6 +818,9 @@ def run_shard(shard, ctx):
         for case in _setter_cases():
             ctx.run_case(check_case, case, {'cls': case['cls'], 'clause_kind': 'setter'})
         ctx.sample(case, limit=1)
+        for case in _alias_cases():
+            ctx.run_case(check_case, case, {'cls': case['cls'], 'clause_kind': 'shared input'})
+        ctx.sample(case, limit=1)
         for label in ref.POINT_GROUPS:
             ctx.run_case(check_case, dict(kind='label', label=label), {'cls': 'RigidRotor', 'input': 'point-group label'})
         for g in ['HoRT', 'SoR', 'CpoR', 'GoRT', 'q']:
@@ -790,6 +840,8 @@ def check_case(case, ctx):
         check_species(case, ctx)
     elif k == 'setter':
         check_setter(case, ctx)
+    elif k == 'alias':
+        check_alias(case, ctx)
     elif k == 'label':
         check_label(case, ctx)
     elif k == 'missing':
